@@ -809,7 +809,7 @@ func init() {
 			}
 			return shardsOfSketchSpecs(specs)
 		},
-		ShardBudget: budget(70*time.Second, 12*time.Minute),
+		ShardBudget: budget(240*time.Second, 12*time.Minute),
 	})
 
 	mc.Register(&mc.Property{
@@ -838,7 +838,7 @@ func init() {
 			}
 			return shardsOfSketchSpecs(specs)
 		},
-		ShardBudget: budget(70*time.Second, 12*time.Minute),
+		ShardBudget: budget(240*time.Second, 12*time.Minute),
 	})
 
 	mc.Register(&mc.Property{
@@ -869,7 +869,7 @@ func init() {
 			sh := shardsOfSketchSpecs(specs)
 			return append(sh, constructorShard())
 		},
-		ShardBudget: budget(70*time.Second, 12*time.Minute),
+		ShardBudget: budget(240*time.Second, 12*time.Minute),
 	})
 
 	mc.Register(&mc.Property{
@@ -911,7 +911,7 @@ func init() {
 			}
 			return append(sh, shardsOfSketchSpecs(specs)...)
 		},
-		ShardBudget: budget(70*time.Second, 12*time.Minute),
+		ShardBudget: budget(240*time.Second, 12*time.Minute),
 	})
 
 	mc.Register(&mc.Property{
@@ -958,7 +958,7 @@ func init() {
 			}
 			return append(sh, shardsOfSketchSpecs(specs)...)
 		},
-		ShardBudget: budget(70*time.Second, 12*time.Minute),
+		ShardBudget: budget(240*time.Second, 12*time.Minute),
 	})
 
 	mc.Register(&mc.Property{
@@ -1004,6 +1004,6 @@ func init() {
 			}
 			return append(sh, shardsOfSketchSpecs(specs)...)
 		},
-		ShardBudget: budget(70*time.Second, 12*time.Minute),
+		ShardBudget: budget(240*time.Second, 12*time.Minute),
 	})
 }
